@@ -4,6 +4,7 @@ import (
 	"fmt"
 	"math/rand"
 	"os"
+	"path/filepath"
 	"strings"
 	"time"
 
@@ -121,6 +122,12 @@ func checkC09(ctx *Ctx) {
 			w.Ops = append(w.Ops, pOp{Caller: "emb", Argv: []string{"REWRITEAOF"}})
 			w.Ops = append(w.Ops, base.Ops[pos:]...)
 			c09Workload(ctx, w, 1000+pos)
+		}
+	}
+	for i := 0; i < ctx.N(24, 160); i++ {
+		if ctx.Mine(i + 5) {
+			ctx.SetCurrent(fmt.Sprintf("C09 generations case %d", i))
+			c09Generations(ctx, i)
 		}
 	}
 	for i := 0; i < ctx.N(16, 60); i++ {
@@ -441,4 +448,96 @@ func c09ConcurrentWitness(ctx *Ctx) {
 		ctx.KnownReproduced("C09-KF3")
 	}
 	ctx.Eval(1)
+}
+
+// c09Generations: rewrites across process generations. Generation 1 writes (non-idempotent commands
+// included) and stops; every later generation starts from the files, runs one of the patterns
+// {rewrite at once, rewrite then writes, writes then rewrite, rewrite twice, writes only} and stops
+// cleanly; each start must see exactly the dataset the previous generation ended with.
+func c09Generations(ctx *Ctx, i int) {
+	r := rand.New(rand.NewSource(ctx.Seed*9_000_011 + int64(i)))
+	root := mkScratch("c09gen")
+	defer os.RemoveAll(root)
+	dir := filepath.Join(root, "data")
+	_ = os.MkdirAll(dir, 0o755)
+	clk := NewVClock()
+	policy := []string{"always", "everysec", "no"}[i%3]
+	var script []string
+	var prev map[int]map[string]string
+	patterns := []string{"rewrite-at-once", "rewrite-then-writes", "writes-then-rewrite", "rewrite-twice", "writes-only", "rewrite-at-once"}
+	gens := 3 + r.Intn(3)
+	for g := 0; g < gens; g++ {
+		run, err := newPRunner(dir, policy, g > 0, false, clk)
+		if err != nil {
+			ctx.Violate(Violation{Kind: "restart", Lane: "generations", What: fmt.Sprintf("generation %d did not start: %v", g, err), Case: map[string]interface{}{"script": script}, Key: "c09|gen|start"})
+			return
+		}
+		if g > 0 {
+			ctx.Eval(1)
+			if d := model.DiffCanon(prev, run.canon()); d != "" {
+				ctx.Violate(Violation{Kind: "generation", Lane: "generations",
+					What: fmt.Sprintf("generation %d (policy %s) started with a dataset that differs from the one generation %d stopped with: %s", g, policy, g-1, d),
+					Case: map[string]interface{}{"script": script}, Key: "c09|gen|" + patternOf(script) + "|" + firstDiffKind(d)})
+				run.close()
+				return
+			}
+		}
+		pat := "writes-only"
+		if g > 0 {
+			pat = patterns[(i+g)%len(patterns)]
+		}
+		script = append(script, fmt.Sprintf("-- generation %d: %s", g, pat))
+		writes := func(n int) {
+			w := genWorkload(r, "gen", policy, n, clk.NowNs())
+			for _, op := range w.Ops {
+				res, err := run.exec(op)
+				script = append(script, op.String()+" -> "+trunc(res, 40))
+				if err != nil {
+					ctx.Violate(Violation{Kind: "crash", Lane: "generations", What: fmt.Sprintf("%s: %v", op.String(), err), Case: map[string]interface{}{"script": script}, Key: "c09|gen|crash"})
+					return
+				}
+			}
+		}
+		rewrite := func() {
+			res, _ := run.exec(pOp{Caller: pick(r, []string{"emb", "t1"}), Argv: []string{"REWRITEAOF"}})
+			script = append(script, "REWRITEAOF -> "+trunc(res, 40))
+		}
+		switch pat {
+		case "writes-only":
+			writes(6 + r.Intn(14))
+		case "rewrite-at-once":
+			rewrite()
+		case "rewrite-then-writes":
+			rewrite()
+			writes(3 + r.Intn(8))
+		case "writes-then-rewrite":
+			writes(3 + r.Intn(8))
+			rewrite()
+		case "rewrite-twice":
+			rewrite()
+			if r.Intn(2) == 0 {
+				writes(1 + r.Intn(3))
+			}
+			rewrite()
+		}
+		ctx.Class(fmt.Sprintf("generations|%s|gen=%d|%s|%s", pat, g, policy, typesPresent(run.canon())))
+		clk.Advance(int64(1+r.Intn(3000)) * 1e6)
+		prev = run.canon()
+		run.close()
+	}
+	if i == 0 {
+		ctx.Sample("generations", map[string]interface{}{"script": head(script, 60)})
+	}
+}
+
+// patternOf returns the pattern name of the last generation in the script.
+func patternOf(script []string) string {
+	for k := len(script) - 1; k >= 0; k-- {
+		if strings.HasPrefix(script[k], "-- generation") {
+			if j := strings.Index(script[k], ": "); j >= 0 {
+				return script[k][j+2:]
+			}
+		}
+	}
+	return "?"
 }
